@@ -1,0 +1,7 @@
+//go:build verif
+
+// Machine-checked contracts for package token (comment-only; read by /verif/bin/bornovc).
+package token
+
+//@ func (t *Token) String [C07]
+//@ requires [recv] t != nil
